@@ -9,4 +9,6 @@ func registerAll() {
 	core.Register("C02", execC02)
 	core.Register("C20", execC20)
 	core.Register("C09", execC09)
+	core.Register("C13", execC13)
+	core.Register("C14", execC14)
 }
